@@ -5,6 +5,8 @@ import common
 import gen
 import progcases
 
+TWINS = ['trivia']      # harness/twins.py: which part of a twin text carries the difference
+
 N = {"quick": 250, "thorough": 6000}
 
 
